@@ -40,7 +40,7 @@ def make_universe(kind):
     if kind == 'str':
         return ['a', 'b', 'c', 'dd', 'e', '']
     if kind == 'mixed':
-        return [0, 1, 'a', 'b', ('t', 1), 2.5]
+        return [0, None, 'a', 'b', ('t', 1), 2.5]      # None is an element like any other
     if kind == 'obj':
         return [Elem(i) for i in range(UNIVERSE_N)]
     raise ValueError(kind)
@@ -172,7 +172,13 @@ class OsetEngine(Engine):
                                              (2, {'k': 'copy', 'as': rng.choice(['list', 'tuple', 'set'])}),
                                              (1, {'k': 'reversed'}), (1, {'k': 'rotated'}),
                                              (1, {'k': 'minus_last'}), (1, {'k': 'plus', 'e': rng.randrange(UNIVERSE_N)}),
-                                             (1, {'k': 'list', 'e': rng.sample(range(UNIVERSE_N), rng.randint(0, 3))})])
+                                             (1, {'k': 'list', 'e': rng.sample(range(UNIVERSE_N), rng.randint(0, 3))}),
+                                             # things that are no ordered collection of hashable elements: unequal, and
+                                             # no exception.  (A sequence that *repeats* an element is read as the ordered
+                                             # set of its first occurrences by the implementation; the property does not
+                                             # say whether [1, 2, 1] "holds the same elements" as {1, 2}: not generated.)
+                                             (0.7, {'k': 'scalar', 'v': rng.choice(['none', 'zero', 'obj', 'unhashable'])})])
+                    op['reflected'] = rng.random() < 0.2
                     op['neg'] = rng.random() < 0.3
                 elif kind == 'cmp':
                     op['t'] = rng.randrange(nsets)
@@ -588,14 +594,27 @@ class OsetEngine(Engine):
                         e = U[o['e']]
                         b = a + [e] if e not in a else a[1:]
                         other = list(b)
+                    elif k == 'scalar':
+                        b = None
+                        other = {'none': None, 'zero': 0, 'obj': Elem(99), 'unhashable': [[1], [2]]}[o['v']]
                     else:
                         b = [U[e] for e in o['e']]
                         other = list(b)
                     want = (a == b)
-                    got = (real[s] != other) if op.get('neg') else (real[s] == other)
+                    try:
+                        if op.get('reflected'):
+                            got = (other != real[s]) if op.get('neg') else (other == real[s])
+                        else:
+                            got = (real[s] != other) if op.get('neg') else (real[s] == other)
+                    except TypeError as e:
+                        raise Violation('eq', 'set %d %s %s %s raised TypeError: %s'
+                                        % (s, render(a), '!=' if op.get('neg') else '==',
+                                           render(b) if b is not None else repr(other), e), 'eq:raised')
                     if got is not (not want if op.get('neg') else want):
                         raise Violation('eq', 'set %d %s %s %s evaluated to %r'
-                                        % (s, render(a), '!=' if op.get('neg') else '==', render(b), got))
+                                        % (s, render(a), '!=' if op.get('neg') else '==',
+                                           render(b) if b is not None else repr(other), got),
+                                        'eq:' + k if k == 'scalar' else None)
                     bump(probes, 'eq_true' if want else 'eq_false')
                     outcome = got
                 elif kind == 'cmp':
